@@ -3,6 +3,7 @@ package main
 import (
 	"context"
 	"encoding/json"
+	"errors"
 	"fmt"
 	"io"
 	"net"
@@ -34,6 +35,7 @@ type Scenario struct {
 	Kind  string `json:"kind"` // basic | hook | ctl
 	Beh   string `json:"beh"`  // child behaviour
 	Hold  bool   `json:"hold"` // the event loop handles agent events before a queued terminal status
+	Down  bool   `json:"down"` // the agent refuses the executor's UPDATE calls
 	User  bool   `json:"user"` // the task has a user configured (TaskCommandInfo.user = root; the harness runs as root)
 	Steps []Step `json:"steps"`
 	Cls   string `json:"cls,omitempty"`
@@ -42,23 +44,24 @@ type Scenario struct {
 // ---- recorder + the driver's view of what has been observed so far ---------------------------
 
 type view struct {
-	launched    bool
-	runningSeen bool // status TASK_RUNNING seen
-	started     bool // a child was started (START / Trigger answered without error)
-	released    bool
-	reapSeen    bool // BASIC_TASK_TERMINATED seen (basic, hook) / final status seen (ctl)
-	occSeen     bool // the device answered its first GetState (ctl)
-	nStatus     map[string]int
-	nResp       map[string]int
-	nBTT        int
-	nProc       int
-	nSig        map[string]int
-	nOcc        map[string]int
-	nReq        map[string]int // delivered requests by type
-	held        []mesos.TaskStatus
-	cmdReq      map[string]string // command id -> request name
-	lastStop    time.Time
-	stopOrKill  bool
+	launched     bool
+	runningSeen  bool // status TASK_RUNNING seen
+	started      bool // a child was started (START / Trigger answered without error)
+	released     bool
+	procTerminal bool // the event loop has processed a terminal status of the task
+	reapSeen     bool // BASIC_TASK_TERMINATED seen (basic, hook) / final status seen (ctl)
+	occSeen      bool // the device answered its first GetState (ctl)
+	nStatus      map[string]int
+	nResp        map[string]int
+	nBTT         int
+	nProc        int
+	nSig         map[string]int
+	nOcc         map[string]int
+	nReq         map[string]int // delivered requests by type
+	held         []mesos.TaskStatus
+	cmdReq       map[string]string // command id -> request name
+	lastStop     time.Time
+	stopOrKill   bool
 }
 
 type recorder struct {
@@ -115,6 +118,8 @@ func (r *recorder) await(what string, timeout time.Duration, cond func(v *view) 
 func (v *view) inst(sc *Scenario) string {
 	if sc.Kind == "ctl" {
 		switch {
+		case v.procTerminal:
+			return "gone"
 		case v.reapSeen:
 			return "reaped"
 		case v.released:
@@ -215,6 +220,10 @@ func (rn *runner) send(_ context.Context, req calls.Request) (mesos.Response, er
 	switch call.Type {
 	case executor.Call_UPDATE:
 		st := call.Update.Status.GetState().String()
+		if rn.sc.Down { // the fake agent refuses the update (the executor keeps it in failedTasks / logs the failure)
+			rn.rec.emit("Note", map[string]interface{}{"update_refused": st}, nil)
+			return nil, errors.New("verif: agent API unavailable")
+		}
 		rn.rec.emit("Note", map[string]interface{}{"update": st}, nil)
 	case executor.Call_MESSAGE:
 		var m map[string]interface{}
@@ -302,7 +311,12 @@ func (rn *runner) process(st mesos.TaskStatus) {
 	rn.loopMu.Lock()
 	defer rn.loopMu.Unlock()
 	rn.guard("ProcStatus", func() { rn.vx.PerformStatusUpdate(st) })
-	rn.rec.emit("Proc", map[string]interface{}{"state": st.GetState().String()}, func(v *view) { v.nProc++ })
+	rn.rec.emit("Proc", map[string]interface{}{"state": st.GetState().String()}, func(v *view) {
+		v.nProc++
+		if terminal(st.GetState().String()) {
+			v.procTerminal = true
+		}
+	})
 }
 
 // guard runs one step of the event loop; a step that does not return is an executor hang.
